@@ -17,6 +17,16 @@ EN = "bibtexparser.model.Entry."
 EPT = "bibtexparser.entrypoint."
 IP = "bibtexparser.middlewares.interpolate."
 PROPS = {
+    "C09": {
+        "level": "other",
+        "level_text": "Mixed. Proved (contracts on the real functions): insertion never overwrites the key index -- a later Entry/String whose key is indexed comes back as a fresh DuplicateBlockKeyBlock exposing the key, the FIRST (live) block and the complete duplicate, entries and strings use separate indexes, other blocks pass through (Library._add_to_dicts, _cast_to_duplicate, add: one block appended per argument at its own position, the class invariant of C08 kept); both duplicate wrappers keep what they were given (constructors). Bounded (native, labelled): the number of returned blocks equals the number of source blocks for grammar-derived documents (needs the grammar lemma), the splitter's duplicate-field tracking end to end.",
+        "level_note": STD_NOTE + "; A-EQ (Block.__eq__ structural) assumed in Library.add; sorted()/set-to-list as assumed builtin contracts.",
+        "modules": ["schema", "library", "model"],
+        "functions": [LB + "_cast_to_duplicate", LB + "_add_to_dicts", LB + "add#single", LB + "add#list",
+                      "bibtexparser.model.DuplicateFieldKeyBlock.__init__", "bibtexparser.model.DuplicateBlockKeyBlock.__init__"],
+        "native": "p09",
+        "explanation": "proved: first-wins insertion with complete duplicate wrappers, separate indexes, wrapper constructors; bounded: block counts and duplicate-field tracking on grammar-derived documents",
+    },
     "C17": {
         "level": "other",
         "level_text": "Mixed. Proved (contracts on the real functions; any entry whose Field objects are distinct; any keys): alphabetical sorting returns exactly the entry's Field objects, each once, in key order (code-point order), ties in source order, idempotent on sorted input, from the assumed stable-sort contract of sorted(); key normalisation makes every key the lower-cased old key, keys unique, each key keeps the Field object of its LAST occurrence, keys appear in the order of FIRST occurrences (loop invariant over the ordered-dict model), every old key is covered; both leave values, entry type and key untouched (frames). Bounded (native, labelled): custom-order sorting and the order-list validation (the sort key is a closure with exception control flow), idempotence of normalisation, other blocks untouched end to end.",
